@@ -405,3 +405,20 @@ Lemma keyword_witness_differs :
   forallb (fun o => negb (is_mutate o)) keyword_witness = true /\
   reads keyword_witness (snd (run Deep init keyword_witness)) <> reads keyword_witness (spec_run [] keyword_witness).
 Proof. split; [reflexivity|]. vm_compute. intros H. inversion H. Qed.
+
+(* ------------------------------------------------------------------ the get / update race (before commit f4717ad)
+   A cached getter that misses is two events -- the SELECT is answered; later the row is inserted into the cache --
+   and an update_* (UPDATE + pop) could run between them.  Since f4717ad both run under one lock
+   (SqliteDatabase._cache_lock), which is the atomicity [step] assumes.  The interleaving without the lock: *)
+Definition race_witness : st * out :=
+  let s1 := fst (step Deep init (Add TPort port_row)) in
+  let selected := match klookup dkey_eqb (TPort, 1%N) (db s1) with Some r => r | None => [] end in
+  let s2 := fst (step Deep s1 (Update TPort 1%N [("name", JStr "q")])) in
+  let s3 := mkst (db s2) (kset ckey_eqb (TPort, false, 1%N) (length (cells s2)) (cache s2)) (cells s2 ++ [selected])
+                 (handles s2) in
+  step Deep s3 (Get TPort false 1%N).
+
+Lemma race_witness_stale :
+  read_out (snd race_witness) <> klookup dkey_eqb (TPort, 1%N) (db (fst race_witness)) /\
+  klookup dkey_eqb (TPort, 1%N) (db (fst race_witness)) <> None.
+Proof. split; vm_compute; intros H; inversion H. Qed.
